@@ -28,6 +28,10 @@ import (
 const nowMS = int64(1_700_000_000_000)
 
 var names = []string{"a.org", "b.org:8448", "1.2.3.4", "[::1]:8448"}
+
+// invalidOrigins are not server names at all; requests correctly signed under such a name (the key database knows a key
+// for it) must still be refused
+var invalidOrigins = []string{"[fe80::1%eth0]", "[::1%1]:8448", "::1", "[1.2.3.4]", "a b.org", "a.org:", "a.org:999999", "a_b.org", "[::1", "é.org"}
 var keyIDs = []string{"ed25519:1", "ed25519:a_b"}
 
 func keyOf(server, kid string) evgen.Key {
@@ -50,6 +54,11 @@ func (d *db) FetchKeys(ctx context.Context, reqs map[gmsl.PublicKeyLookupRequest
 	out := map[gmsl.PublicKeyLookupRequest]gmsl.PublicKeyLookupResult{}
 	for rq := range reqs {
 		known := false
+		for _, n := range invalidOrigins {
+			if string(rq.ServerName) == n {
+				known = true
+			}
+		}
 		for _, n := range names {
 			for _, k := range keyIDs {
 				if string(rq.ServerName) == n && string(rq.KeyID) == k {
@@ -84,13 +93,13 @@ func (d *db) StoreKeys(context.Context, map[gmsl.PublicKeyLookupRequest]gmsl.Pub
 
 // wire is the transmitted request.
 type wire struct {
-	Method  string
-	URI     string
-	Body    []byte
-	CType   *string
-	Auth    []string // Authorization header values
-	Default string   // receiver's default name
-	Local   []string // nil = no isLocalServerName callback
+	Method   string
+	URI      string
+	Body     []byte
+	CType    *string
+	Auth     []string // Authorization header values
+	Default  string   // receiver's default name
+	Local    []string // nil = no isLocalServerName callback
 	KeyState string
 }
 
@@ -339,7 +348,7 @@ func main() { harness.Main("C13", "model_checking", run) }
 
 func run(r *harness.Run) {
 	verifhook.Clock = func() time.Time { return vnow }
-	r.Rule("requests built with the real client API over {5 methods} x {5 URIs} x {4 bodies incl. a signed non-UTF-8 body} x {4 origins} x {4 destinations} x {2 key IDs} x receiver configurations (single name / several local names); for each: the untampered delivery, every single-field tampering (method, path, query, each body byte class, content type, origin, destination, key ID, one signature character, header dropped, scheme changed, key validity states at 'now'), every header-syntax variant (all 24 parameter orders x separators x spacing x quoting: neutral; empty / missing parameters, repeated headers with same / different origins, unknown scheme first), and pairs of tamperings (deviation-bounded DFS, bound 2); real VerifyHTTPRequest + KeyRing over a scripted key database, virtual clock. Oracle: reference header grammar + reference signing object + exact reference ed25519 signature.")
+	r.Rule("requests built with the real client API over {5 methods} x {5 URIs} x {4 bodies incl. a signed non-UTF-8 body} x {4 origins + 10 invalid origin names, correctly signed} x {4 destinations} x {2 key IDs} x receiver configurations (single name / several local names); for each: the untampered delivery, every single-field tampering (method, path, query, each body byte class, content type, origin, destination, key ID, one signature character, header dropped, scheme changed, key validity states at 'now'), every header-syntax variant (all 24 parameter orders x separators x spacing x quoting: neutral; empty / missing parameters, repeated headers with same / different origins, unknown scheme first), and pairs of tamperings (deviation-bounded DFS, bound 2); real VerifyHTTPRequest + KeyRing over a scripted key database, virtual clock. Oracle: reference header grammar + reference signing object + exact reference ed25519 signature.")
 	r.Assume("ed25519 deterministic and trusted", "requests whose URI net/http refuses to build are not transmissible and are skipped")
 	r.OnReplay("wire", func(raw json.RawMessage) error {
 		var w wire
@@ -377,6 +386,13 @@ func run(r *harness.Run) {
 					}
 				}
 			}
+		}
+	}
+	for _, o := range invalidOrigins {
+		for _, bb := range []base{bodies[0], bodies[2]} {
+			nb := bb
+			nb.Method, nb.URI, nb.Origin, nb.Dest, nb.KeyID = "PUT", uris[0], o, names[1], keyIDs[0]
+			bases = append(bases, nb)
 		}
 	}
 	r.Count("base_requests", int64(len(bases)))
@@ -535,7 +551,9 @@ func run(r *harness.Run) {
 					w.Local = []string{} // callback owning nothing
 				}
 			})
-			tam("keystate", 5, func(a int) { w.KeyState = []string{"stale", "valid-until-now", "expired", "expired-later", "unknown"}[a] })
+			tam("keystate", 5, func(a int) {
+				w.KeyState = []string{"stale", "valid-until-now", "expired", "expired-later", "unknown"}[a]
+			})
 			label := "untampered"
 			if len(applied) > 0 {
 				label = strings.Join(applied, "+")
